@@ -210,8 +210,8 @@ def _unit_fid(args):
 
 # ---------------------------------------------------------------------------
 # ownership
-NESTED = {"top": "v", "k": {"n": [1]}}
-MUTATIONS = ("top", "nested", "timestamp", "duration", "id")
+NESTED = {"top": "v", "k": {"n": [1], "el": [], "ed": {}}, "e": []}  # incl. EMPTY nested containers (seeded: a "cheap" copier returned falsy values as they were)
+MUTATIONS = ("top", "nested", "timestamp", "duration", "id", "fill-empty")
 WRITES = ("insert", "bulk", "upsert", "replace", "replace_last")
 READS = ("get_all", "get_1", "get_by_id")
 T0 = datetime(2020, 2, 2, 2, 2, 2, tzinfo=UTC)
@@ -224,6 +224,10 @@ def mutate(e, m):
     elif m == "nested":
         e.data["k"]["n"].append(99)
         e.data["k"]["new"] = "MUTATED"
+    elif m == "fill-empty":
+        e.data["k"]["el"].append("filled")
+        e.data["k"]["ed"]["filled"] = 1
+        e.data["e"].append({"filled": True})
     elif m == "timestamp":
         e.timestamp = e.timestamp + timedelta(hours=1)
     elif m == "duration":
@@ -337,6 +341,40 @@ def meta_cases(backend, wdir):
     return out
 
 
+def two_stores_case(backend, wdir):
+    """two stores of one backend alive in one process, same bucket id in both: what was stored in the first
+    comes back from the first, whatever is done to the second (seeded: the memory store's tables became class
+    attributes shared by every instance)"""
+    if backend == "peewee":
+        return None  # one module-global database per process: a second store cannot coexist
+    d1 = S.fresh(backend, wdir, name="first")
+    S.mk_bucket(d1, "same")
+    b1 = d1["same"]
+    for n in range(3):
+        b1.insert(Event(timestamp=T0 + timedelta(seconds=n), duration=1, data={"store": 1, "n": n}))
+    first = sorted(S.ev_tuple(e) for e in b1.get(-1))
+    d2 = S.fresh(backend, wdir, name="second", keep_open=True)
+    if d2.buckets():
+        return f"a brand-new {backend} store already lists buckets {sorted(d2.buckets())}"
+    S.mk_bucket(d2, "same")
+    b2 = d2["same"]
+    b2.insert(Event(timestamp=T0 + timedelta(seconds=50), duration=2, data={"store": 2}))
+    b2.insert([Event(timestamp=T0 + timedelta(seconds=60 + n), duration=2, data={"store": 2, "n": n}) for n in range(2)])
+    ids2 = [e.id for e in b2.get(-1)]
+    b2.delete(ids2[0])
+    again = sorted(S.ev_tuple(e) for e in b1.get(-1))
+    if again != first:
+        return f"first store's bucket read {first} before and {again} after the second store was used"
+    for t in first:
+        e = b1.get_by_id(t[0])
+        if e is None or S.ev_tuple(e) != t:
+            return f"first store: get_by_id({t[0]}) = {None if e is None else S.ev_tuple(e)}, stored {t}"
+    d2.delete_bucket("same")
+    if sorted(S.ev_tuple(e) for e in b1.get(-1)) != first:
+        return "deleting the bucket in the second store changed the first store's bucket"
+    return None
+
+
 def _unit_own(backend):
     ctx = _G["ctx"]
     u = Unit()
@@ -354,6 +392,15 @@ def _unit_own(backend):
                 p = f"raised {type(ex).__name__}: {ex}"
             if p:
                 u.violation(f"{backend}:aliasing:{victim}-object:{m}", f"{backend}: {p}", {"kind": "own", "backend": backend, "w": w, "m": m, "r": r, "victim": victim}, size=WRITES.index(w) * 10 + READS.index(r))
+    u.evaluations += 1
+    u.transitions += 1
+    u.traces += 1
+    try:
+        p = two_stores_case(backend, wdir)
+    except Exception as ex:
+        p = f"raised {type(ex).__name__}: {ex}"
+    if p:
+        u.violation(f"{backend}:two-stores-in-one-process", f"{backend}: {p}", {"kind": "two-stores", "backend": backend})
     for name, p in meta_cases(backend, wdir):
         u.evaluations += 1
         u.transitions += 1
@@ -662,6 +709,9 @@ def run_case(ctx, case):
     if case["kind"] == "fid":
         r = _unit_fid((case["backend"], [(0, [tuple(s) for s in case["specs"]])]))
         return {"violations": [[v["key"], v["what"]] for v in r["violations"]]}
+    if case["kind"] == "two-stores":
+        p = two_stores_case(case["backend"], ctx.wdir())
+        return {"violations": [["two-stores", p]] if p else []}
     if case["kind"] == "own":
         p = own_case(case["backend"], ctx.wdir(), case["w"], case["m"], case["r"], case["victim"])
         return {"violations": [["aliasing", p]] if p else []}
